@@ -224,6 +224,13 @@ where
 static CLEARED_TIMER_IDS: LazyLock<Mutex<HashSet<TimerId>>> =
     LazyLock::new(|| Mutex::new(HashSet::new()));
 
+/// Number of cleared timer ids the legacy capability still remembers
+/// (test-only instrumentation).
+#[cfg(feature = "verif")]
+pub fn verif_cleared_timer_ids_len() -> usize {
+    CLEARED_TIMER_IDS.lock().unwrap().len()
+}
+
 #[cfg(test)]
 mod test {
     use super::*;
